@@ -363,7 +363,9 @@ def run_history(rec, tier, seed):
         rec.observe(c1, c2)
     # reverse_complement with alternating complement maps
     maps = [{"A": "T", "C": "G", "G": "C", "T": "A"}, {"A": "U", "C": "G", "G": "C", "U": "A"}, {"T": "A", "G": "C", "C": "G", "A": "T"},
-            {"K": "N", "L": "M", "M": "L", "N": "K"}, {"A": "T", "T": "A", "N": "n", "n": "N"}]      # maps in which 'N' is an ordinary letter
+            {"K": "N", "L": "M", "M": "L", "N": "K"}, {"A": "T", "T": "A", "N": "n", "n": "N"},      # maps in which 'N' is an ordinary letter
+            # first and last key paired with each other, inner keys NOT the mirror image of the key order
+            {"A": "T", "S": "S", "W": "W", "T": "A"}, {"A": "E", "B": "B", "C": "D", "D": "C", "E": "A"}]
     for (m1, m2) in itertools.permutations(range(len(maps)), 2):
         for mi in (m1, m2, m1):
             cm = maps[mi]
